@@ -12,6 +12,17 @@ fn show(r: &HttpRequest) -> String {
     format!("{} {} [{}] body={}", r.method, r.url, hs.join(";"), r.body.iter().map(|b| format!("{b:02x}")).collect::<String>())
 }
 
+/// a body whose reader fails: no bytes were specified, so no request may reach the shell (both APIs `expect` the conversion)
+struct Failing;
+impl futures::io::AsyncRead for Failing {
+    fn poll_read(self: std::pin::Pin<&mut Self>, _cx: &mut std::task::Context<'_>, _buf: &mut [u8]) -> std::task::Poll<std::io::Result<usize>> {
+        std::task::Poll::Ready(Err(std::io::Error::new(std::io::ErrorKind::Other, "reader failed")))
+    }
+}
+fn failing_body() -> crux_http::http::Body {
+    crux_http::http::Body::from_reader(futures::io::BufReader::new(Failing), Some(3))
+}
+
 #[derive(Serialize)]
 struct J {
     a: u32,
@@ -23,7 +34,7 @@ struct Q {
     n: u32,
 }
 
-const NAMES: [&str; 11] = ["unknown-length-body", "plain-get", "headers", "string-body", "json-body", "bytes-body", "form-body", "query", "unicode-url", "empty-post", "content-type-override"];
+const NAMES: [&str; 14] = ["failing-reader-body", "repeated-values", "explicit-type-then-json", "unknown-length-body", "plain-get", "headers", "string-body", "json-body", "bytes-body", "form-body", "query", "unicode-url", "empty-post", "content-type-override"];
 
 // ---------------------------------------------------------------- command API
 enum CEffect {
@@ -43,6 +54,12 @@ fn command_api(name: &str) -> String {
     type H = CmdHttp<CEffect, CEvent>;
     let langs: Vec<crux_http::http::headers::HeaderValue> = ["en-GB", "fr"].iter().map(|l| l.parse().expect("value")).collect();
     let b = match name {
+        "failing-reader-body" => H::post("http://example.com/x").body(failing_body()),
+        "repeated-values" => {
+            let vs: Vec<crux_http::http::headers::HeaderValue> = ["10.0.0.1", "10.0.0.1", "10.0.0.7", "10.0.0.1"].iter().map(|l| l.parse().expect("value")).collect();
+            H::get("http://example.com/r").header("x-forwarded-for", vs.as_slice())
+        }
+        "explicit-type-then-json" => H::post("http://example.com/t").content_type(crux_http::http::mime::BYTE_STREAM).body_json(&J { a: 1, b: "x".into() }).expect("json"),
         "unknown-length-body" => H::post("http://example.com/u").body(crux_http::http::Body::from_reader(futures::io::Cursor::new(b"abc".to_vec()), None)),
         "plain-get" => H::get("http://example.com/a/b?x=1&y=%20z#frag"),
         "headers" => H::get("http://example.com/").header("X-Custom", "V 1").header("accept-language", langs.as_slice()).header("authorization", "Bearer t"),
@@ -87,6 +104,12 @@ impl crux_core::App for App {
             let h = &caps.http;
             let langs: Vec<crux_http::http::headers::HeaderValue> = ["en-GB", "fr"].iter().map(|l| l.parse().expect("value")).collect();
             let b = match name.as_str() {
+                "failing-reader-body" => h.post("http://example.com/x").body(failing_body()),
+                "repeated-values" => {
+                    let vs: Vec<crux_http::http::headers::HeaderValue> = ["10.0.0.1", "10.0.0.1", "10.0.0.7", "10.0.0.1"].iter().map(|l| l.parse().expect("value")).collect();
+                    h.get("http://example.com/r").header("x-forwarded-for", vs.as_slice())
+                }
+                "explicit-type-then-json" => h.post("http://example.com/t").content_type(crux_http::http::mime::BYTE_STREAM).body_json(&J { a: 1, b: "x".into() }).expect("json"),
                 "unknown-length-body" => h.post("http://example.com/u").body(crux_http::http::Body::from_reader(futures::io::Cursor::new(b"abc".to_vec()), None)),
                 "plain-get" => h.get("http://example.com/a/b?x=1&y=%20z#frag"),
                 "headers" => h.get("http://example.com/").header("X-Custom", "V 1").header("accept-language", langs.as_slice()).header("authorization", "Bearer t"),
@@ -118,6 +141,9 @@ fn capability_api(name: &str) -> String {
 
 fn expected(name: &str) -> &'static str {
     match name {
+        "failing-reader-body" => "PANIC",
+        "repeated-values" => "GET http://example.com/r [x-forwarded-for=10.0.0.1;x-forwarded-for=10.0.0.1;x-forwarded-for=10.0.0.7;x-forwarded-for=10.0.0.1] body=",
+        "explicit-type-then-json" => "POST http://example.com/t [content-type=application/octet-stream] body=7b2261223a312c2262223a2278227d",
         "unknown-length-body" => "POST http://example.com/u [content-type=application/octet-stream] body=616263",
         "plain-get" => "GET http://example.com/a/b?x=1&y=%20z#frag [] body=",
         "headers" => "GET http://example.com/ [accept-language=en-GB;accept-language=fr;authorization=Bearer t;x-custom=V 1] body=",
